@@ -15,6 +15,7 @@ from fst import FST, fst_core
 
 PROPERTY = 'C10'
 THOROUGH_SCALE = 2.0
+THOROUGH_STRIDE = 5        # thorough tier = all quick cells + every 5th thorough-only cell (sized to run end-to-end; '--cells' reaches the others)
 
 CARRIERS = {
     'ifblock': 'if a:\n    x = f(1)  # c\n    y = 2\nz = 3\n',
